@@ -106,7 +106,7 @@ def eval_string(s):
     return out, got_d
 
 
-def build_set(spec):
+def _build_set(spec):
     """spec = list of captions, each a list of lines (strings)"""
     from pycaption import Caption, CaptionList, CaptionNode, CaptionSet
 
@@ -121,6 +121,17 @@ def build_set(spec):
         caps.append(Caption(t, t + 1500000, nodes))
         t += 4000000
     return CaptionSet({"en-US": caps})
+
+
+SCC_SOURCE = "Scenarist_SCC V1.0\n\n00:00:01:02\t94ae 94ae 9420 9420 9470 9470 c8e5 ecec ef80 942f 942f\n\n00:00:03:11\t942c 942c\n\n00:00:04:07\t94ae 9420 1370 c1c2 94d0 c3c4 942f\n\n00:00:06:00\t942c\n"
+
+
+def build_set(spec):
+    if spec == "scc-reader-set":
+        import pycaption
+
+        return pycaption.SCCReader().read(SCC_SOURCE)  # fractional (float) caption times
+    return _build_set(spec)
 
 
 def eval_writer_case(spec, wname):
@@ -149,7 +160,7 @@ def eval_writer_case(spec, wname):
 
 
 def writer_specs(tier):
-    specs = []
+    specs = ["scc-reader-set"]
     for t in TEXT_TOKENS:
         specs.append([[t]])
     pairs = TEXT_TOKENS if tier == "thorough" else TEXT_TOKENS[:9]
